@@ -6,7 +6,7 @@ C08 - bit-field keys are collision-free.  Property theorems about the model
 `assign_fields` (successful or raising half-way) on a `BitField(L)`, with *arbitrary*
 instance values at every step (more general than the instances the code can create).
 -/
-import RigModel.Lemmas.C08Spare
+import RigModel.Lemmas.C08Starts
 set_option linter.unusedSimpArgs false
 set_option linter.unusedVariables false
 
@@ -110,6 +110,44 @@ theorem auto_length_covers (f : Field) (h : f.length = none) :
     simp only [Bool.and_eq_true, decide_eq_true_eq] at hsp
     omega
   · intro _; rfl
+
+/-- **assign_keeps_starts.** `assign_fields` - also one that raises half-way - never moves a field that has a start
+position: field by field the tree afterwards is the tree before, with every given `start_at` unchanged.  Together with
+`assign_disjoint` / `wide_enough`: if `assign_fields` returns, the explicitly positioned fields that can be present
+together did not overlap with the lengths chosen for them - overlapping explicit definitions are never silently
+relocated, they make `assign_fields` raise. -/
+theorem assign_keeps_starts (st : State) : startsKeptB st.entries (assignFieldsP st).1.entries = true :=
+  assignRunP_keeps _ st
+
+/-- what `startsKeptB` says about one field -/
+theorem startsKeptB_getElem : ∀ {pre post : List Entry}, startsKeptB pre post = true →
+    pre.length = post.length ∧ ∀ n (h : n < pre.length) (h' : n < post.length) s,
+      pre[n].field.startAt = some s → post[n].field.startAt = some s ∧ post[n].path = pre[n].path ∧ post[n].ident = pre[n].ident := by
+  intro pre
+  induction pre with
+  | nil =>
+    intro post h
+    cases post with
+    | nil => exact ⟨rfl, fun n hn => absurd hn (by simp)⟩
+    | cons b bs => simp [startsKeptB] at h
+  | cons a as ih =>
+    intro post h
+    cases post with
+    | nil => simp [startsKeptB] at h
+    | cons b bs =>
+      simp only [startsKeptB, Bool.and_eq_true, beq_iff_eq] at h
+      obtain ⟨⟨⟨hp, hi⟩, hs⟩, ht⟩ := h
+      obtain ⟨hlen, hrest⟩ := ih ht
+      refine ⟨by simp [hlen], ?_⟩
+      intro n hn hn' s hsn
+      cases n with
+      | zero =>
+        simp only [List.getElem_cons_zero] at hsn ⊢
+        rw [hsn] at hs
+        exact ⟨by simpa using hs, hp.symm, hi.symm⟩
+      | succ n =>
+        simp only [List.getElem_cons_succ] at hsn ⊢
+        exact hrest n (by simpa using hn) (by simpa using hn') s hsn
 
 /-! ### explicit definitions that overlap or overflow are rejected -/
 
